@@ -421,10 +421,6 @@ void harness_host_seq(void)
 	}
 	h2 = vp_component(c2, VP_KH2);
 	if (clear) h2 = NULL;
-#ifdef KF_EXCLUDE_HOST_NAMED_UNIX
-	/* finding fixes/C28-join-host-named-unix (pending): host "unix" + port under EVHTTP_URI_UNIX_SOCKET */
-	__CPROVER_assume(!((flags & EVHTTP_URI_UNIX_SOCKET) && h2 && h2[0] == 'u' && h2[1] == 'n' && h2[2] == 'i' && h2[3] == 'x' && h2[4] == 0));
-#endif
 	r = evhttp_uri_set_host(u, h2);
 	if (r < 0) { VP_WITNESS("host sequence: second host refused"); return; }
 	stripped = h2 && h2[0] == '[' && (flags & EVHTTP_URI_HOST_STRIP_BRACKETS);
